@@ -411,8 +411,10 @@ class Program:
         self.enum_consts = {}
         self.globals = []        # (unit, global dict with 'init' Node)
         self.funcdecls = []      # (unit, decl)
-        for u in self.units:
-            d = json.load(open(os.path.join(cdir, u["facts"])))
+        loaded = [json.load(open(os.path.join(cdir, u["facts"]))) for u in self.units]
+        from . import renames
+        self.renamed = renames.normalise(loaded, self.rel)
+        for d in loaded:
             main = d["main"]
             for r in d["records"]:
                 self.records_all.append((main, r))
